@@ -137,6 +137,19 @@ def handle (st : DState) (op : String) (args impl : List String) : Option (DStat
       | .count _ => cmp "posat.count" ["ok", fmtF64 (Float.ofNat i)] impl
       | .none => .malformed "posat without axis"
     | _ => .malformed "posat")
+  -- axis(count, startIndex): the coordinates of the samples startIndex … startIndex+count-1, bit for bit what positionAt gives
+  -- (the axis the indices have to be consistent with)
+  | "axisv" => some <| (st,
+    match args.map parseNat with
+    | [some count, some start] =>
+      match st.axis with
+      | .sampled si off _ => cmp "axisv.sampled" ["ok", fmtList ((List.range count).map fun i => fmtF64 (posAt si off (i + start)))] impl
+      | .range ticks _ =>
+        if start + count ≤ ticks.length then cmp "axisv.range" ["ok", fmtList (((ticks.drop start).take count).map fmtF64)] impl
+        else .ok "axisv.range.past_the_end"
+      | .count _ => .ok "axisv.count"
+      | .none => .malformed "axisv without axis"
+    | _ => .malformed "axisv")
   | _ => none
 
 end Nix.Drive.Index
